@@ -217,7 +217,11 @@ def run(ctx):
         common.require_tlc_ok(ctx, gh, "GenHole")
         hrows = gh["cases"]["CASE"]
         if not ctx.quick:
-            hrows = hrows + common.tlc(ctx, "GenHole", cfg="GenHole_2", workers=8, timeout=1500, simulate=60000, depth=5)["cases"]["CASE"]
+            sim = common.tlc(ctx, "GenHole", cfg="GenHole_2", workers=1, timeout=1500, simulate=20000, depth=5)["cases"]["CASE"]
+            seen = {}
+            for r in sim:
+                seen.setdefault(common.digest(json.dumps(r, sort_keys=True)), r)
+            hrows = hrows + [seen[h] for h in sorted(seen)][:40000]
     mrows, trows = gm["cases"]["CASE"], rt["cases"]["CASE"]
     if ctx.quick:
         mrows = [r for r in mrows if len(r["kinds"]) <= 1] + rnd.sample([r for r in mrows if len(r["kinds"]) > 1], 350)
